@@ -104,7 +104,7 @@ func bioReadStr(data []byte, ns []int) string {
 
 func suiteBio(c *Ctx) {
 	rng := c.Rng.Fork()
-	n := c.N(3000, 60000)
+	n := c.N(3000, 40000)
 	cases := make([]bioCase, n)
 	seeds := make([]uint64, n)
 	for i := range cases {
